@@ -82,8 +82,17 @@ def step(rng, pool):
     x = pool[int(rng.integers(len(pool)))]
     nd = x.ndim
     op = str(rng.choice(["ew1", "ew2", "index", "reduce", "transpose", "reshape", "concat", "stack", "dot", "convert", "sort", "roll", "flip", "pad",
-                         "bcast", "where", "astype", "triu", "diagonal", "expand", "squeeze", "round", "kron", "tensordot", "unique", "argmax", "nonzero"]))
+                         "bcast", "where", "astype", "triu", "diagonal", "expand", "squeeze", "round", "kron", "tensordot", "unique", "argmax", "nonzero", "dok_assign"]))
     coo = x.asformat("coo") if not isinstance(x, sparse.COO) else x
+    if op == "dok_assign" and nd and x.size:
+        # assigning a value that becomes the fill value only after the cast to the array's dtype must not leave a stored entry
+        dk = x.asformat("dok")
+        key = tuple(int(rng.integers(0, e)) for e in dk.shape)
+        v = float(rng.choice([0.5, -0.25, 2.0])) + (float(dk.fill_value) if np.dtype(dk.dtype).kind in "iu" else 0.0) * 0
+        if np.dtype(dk.dtype).kind in "iu":
+            v = float(dk.fill_value) + float(rng.choice([0.4, -0.3, 2.0]))
+        dk[key] = v
+        return f"dok[{key}]={v}; tocoo", dk.asformat(str(rng.choice(["coo", "gcxs", "dok"])))
     if op == "ew1":
         f = rng.choice([np.negative, np.abs, np.sign, np.square, np.sin, np.expm1])
         return f"{f.__name__}(x)", f(x)
